@@ -118,6 +118,9 @@ def makeRef (nodes : List RNode) : Nat → RState → Nat → RState × Except S
           -- auto-generated name: returned without registration (`if ref_name is None: return ref`)
           if n.kind == "symbol" then (s, .ok ("symbol_" ++ n.text))
           else if n.kind == "constant" then
+            -- `toidentifier(value)` itself may raise (e.g. ValueError for a Python float NaN): the harness
+            -- passes `!<exception>` instead of the identifier
+            if n.text.startsWith "!" then (s, .error (n.text.drop 1).toString) else
             let r := "constant_" ++ n.text
             if r.length < 50 then (s, .ok r) else (s, .error "AssertionError")
           else if n.kind == "absolute" then
